@@ -569,6 +569,12 @@ func genG7(r rng, n int, t *testing.T) []*Scenario {
 				sc.Instances[i].DemoteNs = r.between(0, h)
 			}
 		}
+		if r.chance(0.2) {
+			// stale news handled slowly: watch entries of one instance are in transit for a while, and the goroutine that
+			// handles them is descheduled when it first looks at an entry
+			id := sc.Instances[r.Intn(ninst)].ID
+			sc.Watch = map[string]WatchPlan{id: {Delay: [2]int64{h / 2, h / 2}, Only: -1, Pipe: true, Stall: r.between(h/2, 2*h)}}
+		}
 		if r.chance(0.3) {
 			sc.Instances[0].Monitor = true
 			sc.Actions = append(sc.Actions, Action{At: r.between(h, 3*h), Do: "conn", I: "n1", Ev: "disconnect"},
